@@ -339,11 +339,21 @@ fn parse_as(what: &str, s: &str) -> Option<Result<PVal, ()>> {
     }
 }
 
-fn print_pval(v: &PVal) -> String {
+/// Display of a value, as an observation: None = it panicked
+fn print_pval(v: &PVal) -> Option<String> {
     match v {
-        PVal::Name(n) => n.to_string(),
-        PVal::Key(k) => k.to_string(),
-        PVal::Chord(c) => KeyChord::new(c.clone()).to_string(),
+        PVal::Name(n) => {
+            let n = *n;
+            catch(move || n.to_string())
+        }
+        PVal::Key(k) => {
+            let k = *k;
+            catch(move || k.to_string())
+        }
+        PVal::Chord(c) => {
+            let c = c.clone();
+            catch(move || KeyChord::new(c).to_string())
+        }
     }
 }
 
@@ -370,12 +380,15 @@ fn run_parse(input: &Value) -> Case {
     let mut pairs = vec![];
     oracle_pairs(&s, &mut pairs);
     let (printed, reparsed) = match &parsed {
-        Some(Ok(v)) => {
-            let p = print_pval(v);
-            oracle_pairs(&p, &mut pairs);
-            let r = parse_as(&what, &p);
-            (p, r)
-        }
+        Some(Ok(v)) => match print_pval(v) {
+            Some(p) => {
+                oracle_pairs(&p, &mut pairs);
+                let r = parse_as(&what, &p);
+                (p, r)
+            }
+            // Display panicked: an observation (empty text whose re-parse "panicked")
+            None => (String::new(), None),
+        },
         _ => (String::new(), Some(Err(()))),
     };
     let (pc, pj) = coq_pout(&parsed);
@@ -404,10 +417,12 @@ fn run_print(input: &Value) -> Case {
         "key" => PVal::Key(keys.first().copied().unwrap_or(Key::new(KeyName::Esc, KeyMod::EMPTY))),
         _ => PVal::Chord(keys.clone()),
     };
-    let p = print_pval(&v);
+    let printed = print_pval(&v);
+    let p = printed.clone().unwrap_or_default();
     let mut pairs = vec![];
     oracle_pairs(&p, &mut pairs);
-    let reparsed = parse_as(&what, &p);
+    // a panic of Display shows as an empty text whose re-parse "panicked"
+    let reparsed = if printed.is_some() { parse_as(&what, &p) } else { None };
     let (rc, rj) = coq_pout(&reparsed);
     let tbl = clist(pairs.iter().map(|(a, b)| format!("({}, {})", coq_str(a), coq_str(b))));
     let mut j = input.clone();
@@ -421,7 +436,11 @@ fn run_print(input: &Value) -> Case {
     Case {
         coq: format!("CPrint {} {} {} {}", coq_pval(&v), coq_str(&p), tbl, rc),
         json: j,
-        tags: vec!["kind=print".to_string(), format!("print.reparse_same={}", roundtrip)],
+        tags: vec![
+            "kind=print".to_string(),
+            format!("print.reparse_same={}", roundtrip),
+            format!("print.display={}", if printed.is_some() { "ok" } else { "panic" }),
+        ],
         nontrivial: roundtrip,
     }
 }
@@ -832,6 +851,13 @@ pub fn generate(rng: &mut Rng, n: usize, tier: &str) -> Vec<Value> {
     for bit in 0..9 {
         v.push(json!({"kind": "print", "what": "key", "keys": [["Char", "97", 1u64 << bit]]}));
     }
+    // every subset of the nine modifier bits through Display (and FromStr of that), on a plain key and an F key
+    for mode in 0..512u64 {
+        v.push(json!({"kind": "print", "what": "key", "keys": [["Char", "97", mode]]}));
+        if mode % 8 == 5 {
+            v.push(json!({"kind": "print", "what": "chord", "keys": [["F", "12", mode], ["Up", "", 511 - mode]]}));
+        }
+    }
     let fixed = v.len();
     while v.len() < fixed + n {
         match rng.below(20) {
@@ -861,7 +887,36 @@ pub fn batch(inputs: &[Value]) -> Batch {
         case_type: "c18_case",
         report_fn: "c18_report",
         rule: "key-map history with at least two registrations and at least one lookup / enumeration / matcher step, or a parser input of at least two characters; distinct by input",
-        cases: inputs.iter().map(run).collect(),
+        cases: {
+            // the in-flight input is on disk before anything runs (an abort still yields a replay); a panic in
+            // any harness-side use of the crate becomes a failing case instead of killing the run
+            let dir = std::env::var("SNT_HARNESS_OUT").ok();
+            let cases = inputs
+                .iter()
+                .map(|input| {
+                    if let Some(d) = &dir {
+                        let _ = std::fs::write(format!("{}/current_case.json", d), input.to_string());
+                    }
+                    match std::panic::catch_unwind(std::panic::AssertUnwindSafe(|| run(input))) {
+                        Ok(case) => case,
+                        Err(_) => {
+                            let mut j = input.clone();
+                            j["impl"] = json!("panic in a crate call outside the observed ones");
+                            Case {
+                                coq: "CPrint (VName KEsc) [] [] PPanic".to_string(),
+                                json: j,
+                                tags: vec!["harness.guard=panic".to_string()],
+                                nontrivial: true,
+                            }
+                        }
+                    }
+                })
+                .collect();
+            if let Some(d) = &dir {
+                let _ = std::fs::remove_file(format!("{}/current_case.json", d));
+            }
+            cases
+        },
         preamble: String::new(),
     }
 }
